@@ -40,7 +40,7 @@ BOUNDS = (
     "retry loop: max_retries 0..%d (quick 2, thorough 3), every fault script over {ConnectError, ReadTimeout, RemoteProtocolError(no response), "
     "RemoteProtocolError(other), any status 100..999 with Retry-After absent/any int} per attempt, both config flags, default "
     "retryable set plus one symbolic extra code; delay: all binary64 inputs (finite base,max >= 0), attempt 0..3; "
-    "exchange/cancel: any status 100..999 for both answers, transport failure on either post"
+    "exchange/cancel: any status 100..999 for both answers, transport failure on either post, session retry config None / max_retries 0..3"
 ) % pick(2, 3)
 OUTSIDE = (
     "float()/parsedate_to_datetime parsing of the Retry-After text (its result is the symbolic input of (b)); "
@@ -816,13 +816,21 @@ class _Session(cl.HttpStreamSession):
         return body
 
 
-def _mk_session(client, state, finished=False):  # type: ignore[no-untyped-def]
-    return _Session(client, "http://h/p", "m", state, _SCHEMA, finished=finished)
+def _mk_session(client, state, finished=False, retry=None):  # type: ignore[no-untyped-def]
+    return _Session(client, "http://h/p", "m", state, _SCHEMA, finished=finished, retry_config=retry)
+
+
+def _retry_cfg(has_retry, mr):  # type: ignore[no-untyped-def]
+    """The session's retry configuration (None or max_retries = mr); zero backoff so that a retry loop reached by
+    mistake does not really sleep."""
+    if not has_retry:
+        return None
+    return rt.HttpRetryConfig(max_retries=mr, backoff_base=0.0, backoff_max=0.0)
 
 
 def _replay_exchange(args: dict) -> str | None:
-    client = _CountingClient([(args["boom0"], args["st0"], args["good0"]), (args["boom1"], args["st1"], args["good1"]), (False, 200, True)])
-    s = _mk_session(client, b"tok")
+    client = _CountingClient([(args["boom0"], args["st0"], args["good0"]), (args["boom1"], args["st1"], args["good1"])] + [(False, 200, True)] * 4)
+    s = _mk_session(client, b"tok", retry=_retry_cfg(args["has_retry"], args["mr"]))
     try:
         s.exchange(_IN)
     except HarnessModelError:
@@ -836,15 +844,15 @@ def _replay_exchange(args: dict) -> str | None:
 
 
 @cond(q=60, t=200, stubs=["_externalize_request_body := storage I/O stub"], encoded=[cl.HttpStreamSession.exchange],
-      bound="any status 100..999 on both answers; transport failure / undecodable body on either", replay=_replay_exchange,
+      bound="any status 100..999 on both answers; transport failure / undecodable body on either; session retry config None or max_retries 0..3", replay=_replay_exchange,
       signature=lambda a, c: "C38:exchange:resent")
-def exchange_sent_once_or_twice_after_413(st0: int, st1: int, boom0: bool, boom1: bool, good0: bool, good1: bool) -> bool:
+def exchange_sent_once_or_twice_after_413(st0: int, st1: int, boom0: bool, boom1: bool, good0: bool, good1: bool, has_retry: bool, mr: int) -> bool:
     """
-    pre: 100 <= st0 <= 999 and 100 <= st1 <= 999
+    pre: 100 <= st0 <= 999 and 100 <= st1 <= 999 and 0 <= mr <= 3
     post: _
     """
     client = _CountingClient([(boom0, st0, good0), (boom1, st1, good1)])
-    s = _mk_session(client, b"tok")
+    s = _mk_session(client, b"tok", retry=_retry_cfg(has_retry, mr))
     try:
         out = s.exchange(_IN)
         returned = True
@@ -868,14 +876,14 @@ def exchange_sent_once_or_twice_after_413(st0: int, st1: int, boom0: bool, boom1
     return True
 
 
-@cond(q=30, t=120, encoded=[cl.HttpStreamSession.exchange, cl.HttpStreamSession.cancel], bound="state present/absent, finished flag, any status 100..999, transport failure")
-def cancel_sent_at_most_once_and_final(has_state: bool, finished: bool, st0: int, boom0: bool, good0: bool) -> bool:
+@cond(q=30, t=120, encoded=[cl.HttpStreamSession.exchange, cl.HttpStreamSession.cancel], bound="state present/absent, finished flag, any status 100..999, transport failure; session retry config None or max_retries 0..3")
+def cancel_sent_at_most_once_and_final(has_state: bool, finished: bool, st0: int, boom0: bool, good0: bool, has_retry: bool, mr: int) -> bool:
     """
-    pre: 100 <= st0 <= 999
+    pre: 100 <= st0 <= 999 and 0 <= mr <= 3
     post: _
     """
     client = _CountingClient([(boom0, st0, good0)])
-    s = _mk_session(client, b"tok" if has_state else None, finished=finished)
+    s = _mk_session(client, b"tok" if has_state else None, finished=finished, retry=_retry_cfg(has_retry, mr))
     try:
         s.cancel()
     except HarnessModelError:
